@@ -27,6 +27,8 @@ TRUSTED = [
     "semantics, SIGPIPE delivery, tokio scheduling and the byte-wise `read` are explored by the process-level runs, not proved",
     "stage programs are abstracted to source / drop d / take t / forward-or-swallow over whole 64-byte lines "
     "(1 model unit = 1 line, capacity 1024 units = 64 KiB); `head` over-reading is not modelled",
+    "the model follows the repaired algorithm (6cea0bb: every stage is started before any is awaited); the old inline "
+    "algorithm survives only as the refutation example c11_inline_stage_deadlock_refuted and as a label on generated cases",
     "oracles: /usr/bin/bash 5.2.15 on the same script; a python flow function (composition of the stage functions)",
 ]
 ASSUMPTIONS = ["Linux pipe capacity is 64 KiB (16 pages) and small writes coalesce; generated payloads stay >= 20% away from it",
@@ -34,11 +36,20 @@ ASSUMPTIONS = ["Linux pipe capacity is 64 KiB (16 pages) and small writes coales
                "bounds are generous (>= 60 s for payloads that bash moves in < 1 s)"]
 
 LINE = 64
-CAP = 65536 // LINE          # pipe capacity in model units
+CAP = 65536 // LINE          # pipe capacity in model units (ASCII payload: 64-byte lines)
 BASE = 1 << 24
 INLINE_FORMS = ("func", "brace", "subsh", "loop")
-KF_INLINE = "KF-C11-inline-stage"
-HANG_BOUND = 10     # seconds granted to a pipeline the model predicts to deadlock (bash needs < 0.1 s for these)
+KF_EPIPE_LOOP = "KF-C11-epipe-loop"
+KF_READ_UTF8 = "KF-C11-read-non-ascii"
+# payload flavours: "ascii" = 64-byte lines of digits; "utf8" = 61-byte lines of 11 digits followed by 2-, 3- and
+# 4-byte characters, so that 64 KiB read/write boundaries fall inside characters at ever-changing offsets
+UTF8_TAIL = ("\u00e9" * 2 + "\u20ac" * 7 + "\U0001F600" * 6).encode("utf-8") + b"\n"
+LINE_LEN = {"ascii": 64, "utf8": 11 + len(UTF8_TAIL)}
+assert LINE_LEN["utf8"] == 61
+
+
+def cap_of(flav):
+    return 65536 // LINE_LEN[flav]
 
 
 def wd():
@@ -47,23 +58,33 @@ def wd():
     return d
 
 
-def line(i):
+def line(i, flav="ascii"):
+    if flav == "utf8":
+        return b"%011d" % i + UTF8_TAIL
     return b"%063d\n" % i
+
+
+def tags(stages):
+    return stages[0][3].split(",") if len(stages[0]) > 3 else []
+
+
+def flavour(stages):
+    return "utf8" if "utf8" in tags(stages) else "ascii"
 
 
 _SRC_LOCK = __import__("threading").Lock()
 
 
-def src_file(d, idx, count):
-    """file of `count` lines "%063d" of the ids idx*2^24 + j (created once, atomically: cases run in parallel)"""
-    p = os.path.join(d, "src_%d_%d" % (idx, count))
+def src_file(d, idx, count, flav="ascii"):
+    """file of `count` lines of the ids idx*2^24 + j (created once, atomically: cases run in parallel)"""
+    p = os.path.join(d, "src_%s_%d_%d" % (flav, idx, count))
     if d.startswith("$"):
         return p
     with _SRC_LOCK:
         if not os.path.exists(p):
             tmp = p + ".tmp"
             with open(tmp, "wb") as f:
-                f.write(b"".join(line(idx * BASE + j) for j in range(count)))
+                f.write(b"".join(line(idx * BASE + j, flav) for j in range(count)))
             os.rename(tmp, p)
     return p
 
@@ -89,11 +110,11 @@ def model_fields(st, repaired=False):
     raise ValueError(beh)
 
 
-def render_stage(st, i, d):
+def render_stage(st, i, d, flav="ascii"):
     """-> (prelude, command text)"""
     beh, form, arg = st[:3]
     if beh == "src":
-        f = src_file(d, i, arg)
+        f = src_file(d, i, arg, flav)
         core_cmd = "cat %s" % f
         if form == "builtin":
             return "D%d=$(<%s)\n" % (i, f), "printf '%%s\\n' \"$D%d\"" % i
@@ -158,9 +179,9 @@ def flow(stages):
     return outs
 
 
-def flow_bytes(r):
+def flow_bytes(r, flav="ascii"):
     s, lo, hi = r
-    return b"".join(line(s * BASE + j) for j in range(lo, hi))
+    return b"".join(line(s * BASE + j, flav) for j in range(lo, hi))
 
 
 def expected_bytes(stages, data):
@@ -175,24 +196,61 @@ def known_inline(stages):
     """decidable class of KF-C11-inline-stage: some non-final stage is a compound command or a function
     and emits more than the pipe capacity (mirrors Conc/SchedProofs.v known_class)."""
     outs = flow(stages)
-    return any(st[1] in INLINE_FORMS and (outs[i][2] - outs[i][1]) > CAP
+    return any(st[1] in INLINE_FORMS and (outs[i][2] - outs[i][1]) > cap_of(flavour(stages))
                for i, st in enumerate(stages[:-1]))
+
+
+def known_read_utf8(stages):
+    """decidable class of KF-C11-read-non-ascii: non-ASCII payload lines are passed on through the `read` builtin
+    (a while/for-read loop stage that forwards what it read) and at least one line reaches that stage"""
+    if flavour(stages) != "utf8":
+        return False
+    outs = flow(stages)
+    ins = [(0, 0, 0)] + outs[:-1]
+    for i, st in enumerate(stages):
+        if st[1] == "loop" and st[0] in ("src", "cat", "head"):
+            n_in = st[2] if st[0] == "src" else ins[i][2] - ins[i][1]
+            if n_in > 0 and outs[i][2] - outs[i][1] > 0:
+                return True
+    return False
 
 
 def wrapped(stages):
     """the whole pipeline runs inside a command substitution whose value is printed afterwards"""
-    return len(stages[0]) > 3 and stages[0][3] == "cmdsub"
+    return "cmdsub" in tags(stages)
 
 
 def script_of(stages, d, statfile):
     pre, cmds = "", []
     for i, st in enumerate(stages):
-        p, c = render_stage(st, i, d)
+        p, c = render_stage(st, i, d, flavour(stages))
         pre += p
         cmds.append(c)
     if wrapped(stages):
-        return pre + "X=$(" + " | ".join(cmds) + ")\necho \"$?\" > %s\nprintf '%%s' \"$X\"\n" % statfile
+        return pre + "X=$( " + " | ".join(cmds) + " )\necho \"$?\" > %s\nprintf '%%s' \"$X\"\n" % statfile
     return pre + " | ".join(cmds) + "\necho \"$? ${PIPESTATUS[*]}\" > %s\n" % statfile
+
+
+_SESSIONS = []
+
+
+def kill_sessions(sids):
+    """SIGKILL every process whose session id is in `sids` (children of a shell put themselves into process
+    groups of their own, so killing the shell's group is not enough; they cannot leave its session)"""
+    import signal
+    sids = set(sids)
+    if not sids:
+        return
+    for ent in os.listdir("/proc"):
+        if not ent.isdigit():
+            continue
+        try:
+            st = open("/proc/%s/stat" % ent).read()
+            rest = st[st.rindex(")") + 2:].split()
+            if int(rest[3]) in sids:
+                os.kill(int(ent), signal.SIGKILL)
+        except (OSError, ValueError, IndexError):
+            pass
 
 
 def run_shell(binary, args, script, d, tag, timeout, env=None):
@@ -203,20 +261,25 @@ def run_shell(binary, args, script, d, tag, timeout, env=None):
     t0 = time.time()
     with open(outp, "wb") as fo:
         p = subprocess.Popen([binary] + args + ["-c", script], stdin=subprocess.DEVNULL, stdout=fo,
-                             stderr=subprocess.DEVNULL, env=e, cwd=d)
+                             stderr=subprocess.DEVNULL, env=e, cwd=d, start_new_session=True)
+        _SESSIONS.append(p.pid)
         try:
             rc = p.wait(timeout=timeout)
             hung = False
         except subprocess.TimeoutExpired:
             p.kill()
             p.wait()
+            kill_sessions([p.pid])
             rc, hung = None, True
     data = open(outp, "rb").read()
     os.remove(outp)
     return {"hung": hung, "rc": rc, "len": len(data), "sha": hashlib.sha1(data).hexdigest(), "t": time.time() - t0}
 
 
-def run_case(ctx, k, stages, d, want_hang, env=None):
+SHORT_BOUND = 30    # seconds for pipelines of the once-deadlocking class (bash needs < 0.1 s for them)
+
+
+def run_case(ctx, k, stages, d, short, env=None):
     st_b, st_h = os.path.join(d, "st_%d_b" % k), os.path.join(d, "st_%d_h" % k)
     for f in (st_b, st_h):
         if os.path.exists(f):
@@ -224,7 +287,7 @@ def run_case(ctx, k, stages, d, want_hang, env=None):
     big = max([st[2] for st in stages if st[0] == "src"] + [0])
     to_ok = 90 + big // 200
     code = run_shell(ctx.vbrush, ["--norc", "--noprofile", "--no-config"], script_of(stages, d, st_b), d, "b%d" % k,
-                     HANG_BOUND if want_hang else to_ok, env)
+                     SHORT_BOUND if short else to_ok, env)
     bash = run_shell("/usr/bin/bash", ["--norc", "--noprofile"], script_of(stages, d, st_h), d, "h%d" % k, to_ok)
     for r, f in ((code, st_b), (bash, st_h)):
         try:
@@ -275,25 +338,39 @@ def gen_sched(ctx):
             elif beh == "src":
                 arg = rng.choice(sizes)
             stages.append((beh, form, arg))
-        if rng.random() < 0.2:
-            stages[0] = stages[0] + ("cmdsub",)
+        tg = []
+        if rng.random() < 0.25:
+            tg.append("cmdsub")
+        if rng.random() < 0.4:
+            tg.append("utf8")
+        if tg:
+            stages[0] = stages[0] + (",".join(tg),)
         cases.append(stages)
+    # command substitutions and plain pipelines over multi-byte payloads on both sides of 64 KiB: characters of
+    # 2, 3 and 4 bytes straddle every 64 KiB boundary of the 61-byte lines
+    for n in ((800, 1400, 2000, 5000) if ctx.quick else (800, 1400, 2000, 5000, 20000, 65536)):
+        for sf in ("ext", "builtin", "func", "subsh"):
+            cases.append([("src", sf, n, "cmdsub,utf8")])
+            cases.append([("src", sf, n, "cmdsub,utf8"), ("cat", rng.choice(FORMS["cat"][:4]), None)])
+            cases.append([("src", sf, n, "utf8"), ("cat", rng.choice(FORMS["cat"][:4]), None)])
+        cases.append([("src", "ext", n, "cmdsub")])
     # filter: sizes in the grey zone around the capacity; read1 needs a line to read; slow loops on huge inputs
     ok = []
     nhang = 0
     for st in cases:
         outs = flow(st)
         ins = [(0, 0, 0)] + outs[:-1]
-        if any(CAP * 0.8 < (o[2] - o[1]) < CAP * 1.2 for o in outs):
+        cp = cap_of(flavour(st))
+        if any(cp * 0.8 < (o[2] - o[1]) < cp * 1.2 for o in outs):
             continue
         if any(s[0] == "read1" and ins[i][2] - ins[i][1] < 1 for i, s in enumerate(st)):
             continue
         if any(s[1] == "loop" and max(ins[i][2] - ins[i][1], outs[i][2] - outs[i][1]) > (5000 if ctx.quick else 20000)
                for i, s in enumerate(st)):
             continue
-        if known_inline(st):
+        if known_inline(st):     # the class that deadlocked before 6cea0bb: bounded only to bound a regression's cost
             nhang += 1
-            if nhang > (28 if ctx.quick else 120):
+            if nhang > (40 if ctx.quick else 160):
                 continue
         ok.append(st)
     return ok
@@ -336,117 +413,98 @@ def status_ok(code_stat, model_runs, nst, only_last=False):
     return all(parts[i + 1] in allowed[i] for i in range(nst)) and parts[0] == parts[-1]
 
 
-def eval_sched(ctx, cases, env=None, variant=None):
+def eval_sched(ctx, cases, env=None):
+    """The model follows the repaired algorithm (6cea0bb): every stage Spawned. Any non-completion is a violation."""
     d = wd()
     use_model = ctx.runner is not None
+    caps = [cap_of(flavour(st)) for st in cases]
     if use_model:
-        model = ctx.model("c11_sched", [[str(CAP)] + sum((model_fields(s) for s in st), []) for st in cases])
-        model_rep = ctx.model("c11_sched", [[str(CAP)] + sum((model_fields(s, True) for s in st), []) for st in cases])
+        model = ctx.model("c11_sched", [[str(cp)] + sum((model_fields(s, True) for s in st), []) for st, cp in zip(cases, caps)])
         dead = [st for st, m in zip(cases, model) if m in ("DIED", "TIMEOUT")]
         if dead:
             raise core.CheckBroken("the model runner died on %d cases, first %r" % (len(dead), dead[0]))
         mruns = [parse_model(m) for m in model]
-        want_hang = [bool(r) and all(x["verdict"] == "stuck" for x in r) for r in mruns]
-        # the class predicate of the finding: python (known_inline/flow) and Coq (Known.known_class/counts) must agree
-        kn = ctx.model("c11_known", [[str(CAP)] + sum((model_fields(s) for s in st), []) for st in cases])
+        # python flow oracle / old class predicate vs Coq spec_out / Known.known_class (old algorithm's kinds)
+        kn = ctx.model("c11_known", [[str(cp)] + sum((model_fields(s) for s in st), []) for st, cp in zip(cases, caps)])
         for st, kl in zip(cases, kn):
             kf = core.dec_line(kl)
             py_counts = ",".join(str(o[2] - o[1]) for o in flow(st))
             if len(kf) != 3 or (kf[0] == "1") != known_inline(st) or kf[1] != py_counts:
-                raise core.CheckBroken("known-class predicate: Coq %r vs python (%r, %s) on %r" % (kf, known_inline(st), py_counts, st))
-            # the python flow oracle and Coq's spec_out (the function of c11_output_complete) are the same function
+                raise core.CheckBroken("class predicate: Coq %r vs python (%r, %s) on %r" % (kf, known_inline(st), py_counts, st))
             last = flow(st)[-1]
             if [r for r in ranges_to_flow(kf[2])] != ([last] if last[2] > last[1] else []):
                 raise core.CheckBroken("flow oracle: Coq spec_out %r vs python %r on %r" % (kf[2], last, st))
     else:
         model, mruns = [None] * len(cases), [None] * len(cases)
-        want_hang = [known_inline(st) for st in cases]
-    # cases expected to hang only sleep until their (short) bound: run them wide, the others 8 at a time
+    short = [known_inline(st) for st in cases]
     results = [None] * len(cases)
-    hk = [k for k in range(len(cases)) if want_hang[k]]
-    ok_ = [k for k in range(len(cases)) if not want_hang[k]]
-    with ThreadPoolExecutor(max_workers=8) as ex, ThreadPoolExecutor(max_workers=16) as exh:
-        fh = [(k, exh.submit(run_case, ctx, k, cases[k], d, True, env)) for k in hk]
-        fo = [(k, ex.submit(run_case, ctx, k, cases[k], d, False, env)) for k in ok_]
-        for k, f in fh + fo:
+    with ThreadPoolExecutor(max_workers=8) as ex:
+        futs = [(k, ex.submit(run_case, ctx, k, cases[k], d, short[k], env)) for k in range(len(cases))]
+        for k, f in futs:
             results[k] = f.result()
-    # false-alarm discipline: a deadlock of this design is reproducible, a stall of the (shared, loaded) machine is
-    # not. A run outside the known class that did not finish is repeated alone, twice; it counts as a hang only
-    # if it fails to finish again. Stalls that do not reproduce are counted and reported in the evidence.
-    transient = 0
+    # false-alarm discipline: a deadlock of this design is reproducible, a stall of a shared, loaded machine is not.
+    # A run that did not finish is repeated alone, twice, with the long bound; it counts only if it fails again.
+    # (At most 6 such repetitions: after that the remaining non-completions are taken as they are.)
+    transient, confirmed = 0, 0
     for k in range(len(cases)):
-        if results[k][0]["hung"] and not known_inline(cases[k]):
+        if results[k][0]["hung"] and transient + confirmed < 6:
             again = [run_case(ctx, k, cases[k], d, False, env) for _ in range(2)]
             if all(not a[0]["hung"] for a in again):
                 transient += 1
                 results[k] = again[-1]
-    # which algorithm does the code follow? today's hangs on the known class; a repaired one (every stage
-    # started before any is awaited) completes all of it. The matching model variant predicts the statuses.
-    inclass = [k for k in range(len(cases)) if want_hang[k]]
-    if variant is None:
-        variant = "repaired" if inclass and not any(results[k][0]["hung"] for k in inclass) else "today"
-    if use_model and variant == "repaired":
-        mruns = [parse_model(m) for m in model_rep]
-        model = model_rep
-    mism, specv, stale = [], [], 0
-    dist = {"code_follows": variant, "transient_stalls_not_reproduced": transient, "hang_expected": 0, "hang_observed": 0, "bytes_moved": 0, "by_form": {}, "by_beh": {}, "n_stages": {}}
-    bash_dis = 0
+            else:
+                confirmed += 1
+    mism, specv = [], []
+    dist = {"model": "repaired algorithm (all stages spawned)", "transient_stalls_not_reproduced": transient, "hang_observed": 0,
+            "once_deadlocking_class": sum(short), "bytes_moved": 0, "by_form": {}, "by_beh": {}, "n_stages": {}, "flavour": {}}
     for k, (st, mr, (code, bash)) in enumerate(zip(cases, mruns, results)):
         for s in st:
             dist["by_form"][s[1]] = dist["by_form"].get(s[1], 0) + 1
             dist["by_beh"][s[0]] = dist["by_beh"].get(s[0], 0) + 1
+        fl = flavour(st)
+        dist["flavour"][fl] = dist["flavour"].get(fl, 0) + 1
         dist["n_stages"][len(st)] = dist["n_stages"].get(len(st), 0) + 1
         dist["inside_command_substitution"] = dist.get("inside_command_substitution", 0) + (1 if wrapped(st) else 0)
-        info = {"stages": st, "script": script_of(st, "$D", "$ST"), "env": env or {}}
+        info = {"stages": st, "script": script_of(st, "$D", "$ST"), "env": env or {},
+                "payload": "src_<flavour>_<i>_<n>: n lines of ids i*2^24+j; ascii '%063d', utf8 '%011d' + e-acute x2 + euro x7 + U+1F600 x6"}
         verdicts = {x["verdict"] for x in mr} if use_model else set()
-        if use_model and (not mr or len(verdicts) != 1 or "fuel" in verdicts or len({x["ranges"] for x in mr}) != 1):
-            raise core.CheckBroken("model schedulers disagree or ran out of fuel on %r: %r" % (st, mr))
-        spec_out = flow(st)[-1]
-        spec_data = expected_bytes(st, flow_bytes(spec_out))
+        if use_model and (not mr or verdicts != {"final"} or len({x["ranges"] for x in mr}) != 1):
+            raise core.CheckBroken("model schedulers disagree, got stuck or ran out of fuel on %r: %r" % (st, mr))
+        spec_data = expected_bytes(st, flow_bytes(flow(st)[-1], fl))
         wr = wrapped(st)
         spec_sha = hashlib.sha1(spec_data).hexdigest()
-        # the spec oracle itself against bash
-        if bash["hung"] or bash["sha"] != spec_sha:
-            bash_dis += 1
+        if bash["hung"] or bash["sha"] != spec_sha or bash["len"] != len(spec_data):
             raise core.CheckBroken("python flow oracle and bash disagree on %r (bash %r)" % (st, bash))
-        known = known_inline(st)
-        if known and variant == "repaired":
-            stale += 1
         dist["bytes_moved"] += len(spec_data)
-        # ---- code vs spec
+        # ---- code vs spec (byte-exact: length and checksum)
         if code["hung"]:
             dist["hang_observed"] += 1
-            v = {"input": info, "why": "pipeline did not finish within the time bound (bash: %.2fs, output %d bytes)" % (bash["t"], bash["len"])}
-            if known:
-                v["known"] = KF_INLINE
+            specv.append({"input": info, "why": "pipeline did not finish within the time bound (bash: %.2fs, output %d bytes)" % (bash["t"], bash["len"])})
+        elif code["sha"] != spec_sha or code["len"] != len(spec_data):
+            v = {"input": info, "why": "output differs: %d bytes sha1 %s, expected %d bytes sha1 %s" % (
+                code["len"], code["sha"][:12], len(spec_data), spec_sha[:12])}
+            if known_read_utf8(st):
+                v["known"] = KF_READ_UTF8
+                dist["read_non_ascii_mangled"] = dist.get("read_non_ascii_mangled", 0) + 1
+                specv.append(v)
+                continue        # the model carries line ids, not bytes: nothing to compare for this case
             specv.append(v)
-        elif code["sha"] != spec_sha:
-            specv.append({"input": info, "why": "output differs: %d bytes sha %s, expected %d bytes sha %s" % (
-                code["len"], code["sha"][:12], len(spec_data), spec_sha[:12])})
         elif code["stat"] != bash["stat"] and not (use_model and status_ok(code["stat"], mr, len(st), wr)):
             specv.append({"input": info, "why": "statuses `$? PIPESTATUS` = %r, bash %r, model %r" % (
                 code["stat"], bash["stat"], [x["st"] for x in mr])})
         # ---- code vs model
         if not use_model:
             continue
-        if "stuck" in verdicts:
-            dist["hang_expected"] += 1
-            if not code["hung"]:
-                if code["sha"] == spec_sha and known:
-                    stale += 1      # the defect was repaired: the code now meets the spec inside the class
-                else:
-                    mism.append({"case": info, "model": "stuck", "code": code})
-        else:
-            mflow = ranges_to_flow(mr[0]["ranges"])
-            mdata = expected_bytes(st, b"".join(flow_bytes(r) for r in mflow))
-            if code["hung"]:
-                mism.append({"case": info, "model": "final", "code": "hang"})
-            elif hashlib.sha1(mdata).hexdigest() != code["sha"]:
-                mism.append({"case": info, "model": mr[0]["ranges"], "code": code})
-            elif not status_ok(code["stat"], mr, len(st), wr):
-                mism.append({"case": info, "model": [x["st"] for x in mr], "code": code["stat"]})
-    return {"mism": mism, "specv": specv, "stale": stale, "dist": dist, "mruns": mruns, "model_lines": model,
-            "variant": variant, "fields": lambda st: model_fields(st, variant == "repaired")}
+        mflow = ranges_to_flow(mr[0]["ranges"])
+        mdata = expected_bytes(st, b"".join(flow_bytes(r, fl) for r in mflow))
+        if code["hung"]:
+            mism.append({"case": info, "model": "final", "code": "hang"})
+        elif hashlib.sha1(mdata).hexdigest() != code["sha"]:
+            mism.append({"case": info, "model": mr[0]["ranges"], "code": code})
+        elif not status_ok(code["stat"], mr, len(st), wr):
+            mism.append({"case": info, "model": [x["st"] for x in mr], "code": code["stat"]})
+    return {"mism": mism, "specv": specv, "dist": dist, "mruns": mruns, "model_lines": model,
+            "fields": lambda st: model_fields(st, True)}
 
 
 # ------------------------------------------------------------------ status / strip (in-process)
@@ -505,11 +563,12 @@ def gen_strip(ctx):
     for n in range(0, 5):
         for t in itertools.product(b"a\n\x00", repeat=n):
             raws.append(bytes(t))
+    items = [b"a", b"b", b" ", b"\n", b"\n", b"\x00", b"\t", "\u00e9".encode(), "\u20ac".encode(), "\U0001F600".encode()]
     for _ in range(400 if ctx.quick else 4000):
-        body = bytes(rng.choice(b"ab \n\n\x00\t") for _ in range(rng.randrange(0, 12)))
+        body = b"".join(rng.choice(items) for _ in range(rng.randrange(0, 12)))
         raws.append(body + b"\n" * rng.randrange(0, 6))
     raws = list(dict.fromkeys(raws))
-    scripts = ["x=$(printf '%s'; exit 5); echo \"$?:${#x}\"; printf '%%s' \"$x\"\n" % octal(r) for r in raws]
+    scripts = ["x=$(printf '%s'; exit 5); echo \"$?\"; printf '%%s' \"$x\"\n" % octal(r) for r in raws]
     return raws, scripts
 
 
@@ -573,9 +632,9 @@ def eval_strip(ctx):
     for k, (raw, s, il, ml) in enumerate(zip(raws, scripts, impl, model)):
         o = sh_out(il)
         want = py_strip(raw)
-        spec = b"5:%d\n" % len(want) + want
+        spec = b"5\n" + want
         mval = dec_raw(core.dec_line(ml)[0]) if ml.strip() else b""
-        mtxt = b"5:%d\n" % len(mval) + mval
+        mtxt = b"5\n" + mval
         got = o[1] if o else il.encode()[:80]
         if k < nb and bash[k] != spec:
             raise core.CheckBroken("strip oracle and bash disagree on %r: %r vs %r" % (raw, bash[k], spec))
@@ -597,7 +656,16 @@ def dec_raw(s):
 
 # ------------------------------------------------------------------ fixed scenarios (bash parity only)
 SCENARIOS = [
-    ("own-example", "seq 100000 | while read l; do echo $l; done | wc -l", True),
+    ("own-example", "seq 100000 | while read l; do echo $l; done | wc -l", False),
+    ("inline-first-big", "{ seq 100000; } | wc -l", False),
+    ("loop-producer-head", "while :; do echo y; done | head -1", KF_EPIPE_LOOP),
+    ("func-loop-producer-head", "f() { while true; do printf 'y\\n'; done; }; f | head -n 2", KF_EPIPE_LOOP),
+    ("read-non-ascii", "printf 'a\\303\\251\\342\\202\\254\\n' | { read -r x; printf '%s\\n' \"$x\"; }", KF_READ_UTF8),
+    ("finite-loop-producer-head", "for i in {1..20000}; do echo $i; done | head -n 1; echo ${PIPESTATUS[*]}", False),
+    ("cmdsub-3byte-120000", "x=$(printf '\\342\\202\\254%.0s' {1..40000}); printf '%s' \"$x\" | cksum", False),
+    ("cmdsub-2byte-odd-offset", "x=$(printf 'a'; printf '\\303\\251%.0s' {1..50000}); printf '%s' \"$x\" | cksum", False),
+    ("cmdsub-4byte-odd-offset", "x=$(printf 'ab'; printf '\\360\\237\\230\\200%.0s' {1..30000}); printf '%s' \"$x\" | cksum", False),
+    ("cmdsub-mixed-width", "x=$(for i in {1..3000}; do printf '%d\\303\\251\\342\\202\\254\\360\\237\\230\\200\\n' $i; done); printf '%s' \"$x\" | cksum", False),
     ("yes-head", "yes | head -1; echo ${PIPESTATUS[*]}", False),
     ("seq-head", "seq 100000 | head -1; echo ${PIPESTATUS[*]}", False),
     ("read-shared-fd", "seq 10 | { read a; read b; echo \"$a,$b\"; cat; }", False),
@@ -615,24 +683,29 @@ SCENARIOS = [
 ]
 
 
+# class of KF-C11-epipe-loop: a compound-command or function stage that writes with builtins in an unbounded loop
+# (`while :`, `while true`) upstream of a consumer that exits early: the failing writes do not end the stage.
+# Only the two fixed scenarios above are in it; generated pipelines contain no unbounded loops.
+
+
 def eval_scenarios(ctx):
     specv, res = [], []
     d = wd()
     for name, script, known in SCENARIOS:
         b = run_shell("/usr/bin/bash", ["--norc", "--noprofile"], script, d, "sb", 60)
-        c = run_shell(ctx.vbrush, ["--norc", "--noprofile", "--no-config"], script, d, "sc", 15 if known else 90)
+        c = run_shell(ctx.vbrush, ["--norc", "--noprofile", "--no-config"], script, d, "sc", 15 if known == KF_EPIPE_LOOP else 90)
         if c["hung"] and not known:     # see eval_sched: only a reproducible non-completion counts
             again = [run_shell(ctx.vbrush, ["--norc", "--noprofile", "--no-config"], script, d, "sc", 120) for _ in range(2)]
             if all(not a["hung"] for a in again):
                 c = again[-1]
                 ctx.notes.append("scenario %s stalled once and completed in two repetitions" % name)
-        same = (not c["hung"]) and c["sha"] == b["sha"]
+        same = (not c["hung"]) and c["sha"] == b["sha"] and c["len"] == b["len"]
         res.append({"name": name, "same_as_bash": same, "hung": c["hung"]})
         if not same:
             v = {"input": {"script": script}, "why": ("did not finish" if c["hung"] else "output differs from bash") +
                  " (%s)" % name}
-            if known and c["hung"]:
-                v["known"] = KF_INLINE
+            if known and (c["hung"] or known == KF_READ_UTF8):
+                v["known"] = known
             specv.append(v)
     return res, specv
 
@@ -665,6 +738,8 @@ def run(ctx):
     try:
         return run_(ctx)
     finally:
+        kill_sessions(_SESSIONS)
+        del _SESSIONS[:]
         shutil.rmtree(wd(), ignore_errors=True)
 
 
@@ -683,7 +758,7 @@ def run_(ctx):
             max([s[2] or 0 for s in c if s[0] == "src"] + [0]) <= 2000]
     for pause in PAUSES:
         sub = ctx.rng.sample(live, min(len(live), 14 if ctx.quick else 120))
-        evp = eval_sched(ctx, sub, env={"BRUSH_VERIF_PAUSE": pause}, variant=ev["variant"])
+        evp = eval_sched(ctx, sub, env={"BRUSH_VERIF_PAUSE": pause})
         pv_mism += evp["mism"]
         pv_specv += evp["specv"]
         pv_n += len(sub)
@@ -699,7 +774,7 @@ def run_(ctx):
     xs = 0
     if small:
         pick = ctx.rng.sample(small, min(12, len(small)))
-        mc = [[str(CAP)] + sum((ev["fields"](s) for s in sched_cases[k]), []) for k in pick]
+        mc = [[str(cap_of(flavour(sched_cases[k])))] + sum((ev["fields"](s) for s in sched_cases[k]), []) for k in pick]
         ce = ctx.coq_eval("c11_sched", mc)
         if [ev["model_lines"][k] for k in pick] != ce:
             raise core.CheckBroken("extracted runner and vm_compute disagree on c11_sched")
@@ -713,14 +788,16 @@ def run_(ctx):
     nontriv = {repr(c) for c in sched_cases if flow(c)[0][2] > 0} | \
               {repr(c) for c in st_cases if len(c[2]) > 1} | {r for r in raws if r.endswith(b"\n")}
     ev["dist"].update({"status_cases": len(st_cases), "strip_cases": len(raws), "scenarios": scen,
-                       "stale_in_known_class": ev["stale"], "pause_variant_runs": pv_n, "pause_configs": PAUSES})
+                       "pause_variant_runs": pv_n, "pause_configs": PAUSES})
     return {
         "evaluations": len(sched_cases) + pv_n + len(st_cases) + len(raws) + len(SCENARIOS),
         "distinct_nontrivial": len(nontriv),
         "rule": "sched: pipelines of 2-4 stages at process level, each stage (behaviour, form) with behaviour in {source n, cat, head k, "
                 "drop d, read-one-line, sink} and form in {external, builtin, function, brace group, subshell, while/for-read loop}; "
-                "payloads of 64-byte lines, sizes %r lines (capacity = 1024 lines); the full producer-form x consumer grid plus random "
-                "3-4 stage pipelines; non-trivial = at least one line crosses a pipe. status: all status vectors over {0,1,3} up to 3 "
+                "payloads of 64-byte ASCII lines (capacity 1024 lines) or 61-byte lines carrying 2-, 3- and 4-byte UTF-8 characters "
+                "(capacity 1074 lines; characters straddle every 64 KiB boundary), sizes %r lines, compared byte-exact (length + sha1); "
+                "the full producer-form x consumer grid, a grid of command substitutions / pipelines over the multi-byte payload on both "
+                "sides of 64 KiB, plus random 3-4 stage pipelines (25%% inside $(...), 40%% multi-byte); non-trivial = at least one line crosses a pipe. status: all status vectors over {0,1,3} up to 3 "
                 "stages x pipefail x `!` plus random vectors up to 5 stages (non-trivial: >1 stage). strip: all strings over "
                 "{a,\\n,NUL} up to length 4 plus random bodies with 0-5 trailing newlines (non-trivial: ends in newline)."
                 % (SIZES_Q if ctx.quick else SIZES_T),
@@ -749,7 +826,7 @@ def search(ctx, res):
         ev = eval_sched(ctx, cases)
     finally:
         shutil.rmtree(wd(), ignore_errors=True)
-    sv = [v for v in ev["specv"] if "known" not in v]
+    sv = list(ev["specv"])
     sv.sort(key=lambda v: len(v["input"]["script"]))
     return {"evaluations": len(cases), "spec_violations": sv[:5]}
 
